@@ -183,7 +183,9 @@ Out(sc) == Len(sc) - 1
 \* a case is judged on its values iff no sensor scale is involved and every node stays representable
 Judged(c) == ~HasSensor(c.scales, Out(c.scales)) /\ \A i \in DOMAIN DataOf(c.raw) : NodeOK(c.scales, Out(c.scales), c.raw, DataOf(c.raw)[i])
 
-OtherScales == <<[kind |-> "Linear", src |-> RAW, p |-> [slope |-> 10, icpt |-> 100]]>>
+\* the scaling placed on the other levels: two scales, so that a level with fewer (or more) scales than another is met
+OtherScales == <<[kind |-> "Linear", src |-> RAW, p |-> [slope |-> 10, icpt |-> 100]],
+                 [kind |-> "Linear", src |-> 0, p |-> [slope |-> 1, icpt |-> 7]]>>
 Expected(c) ==
   LET eff == Effective(c.place)
       sc == IF eff = "main" THEN c.scales ELSE OtherScales IN
